@@ -2,8 +2,6 @@ package genwl
 
 import "verifharness/monitor"
 
-func runC08(cfg *config, res *monitor.Result)   {}
-func runC09(cfg *config, res *monitor.Result)   {}
 func runC10(cfg *config, res *monitor.Result)   {}
 func runC11(cfg *config, res *monitor.Result)   {}
 func runC12(cfg *config, res *monitor.Result)   {}
